@@ -68,7 +68,7 @@ PENDING = {}
 manifest = dict(
     version=1, setup_cmd="python3 tools/setup.py",
     hooks=dict(guard="cargo feature `verif-hooks` of penguin-mux (the hook module is additionally gated by cfg(all(test, loom)))",
-               enable="RUSTFLAGS='--cfg loom' cargo test -p penguin-mux --lib --features verif-hooks verif_wake (done by tools/fam_wake.py for C12); no other check needs a hook",
+               enable="RUSTFLAGS='--cfg loom' cargo test -p penguin-mux --lib --features verif-hooks verif_wake (done by tools/fam_wake.py for C12, and by the C03 check, which validates the same loom executions for credit conservation); no other check needs a hook",
                baseline_off_cmd="cd /repo && cargo test --workspace --no-fail-fast --offline",
                source_commits=["8337027", "de00901"], add_only=True),
     engines=[
